@@ -510,8 +510,8 @@ int64_t cmi_pool_acquire_inner(struct cmb_resourcepool *rpp,
             cmb_logger_info(stdout,
                             "Interrupted by signal %" PRId64 ", returning unchanged",
                             sig);
-            if (initially_held > 0u) {
-                /* Put back the difference. It had some, there should be a record */
+            if ((initially_held > 0u) && cmi_hashheap_is_enqueued(hhp, key)) {
+                /* Put back the difference. It had some, and it still has a record */
                 const uint64_t surplus = reset_holder(hhp, caller, initially_held);
                 rpp->in_use -= surplus;
                 cmb_assert_debug(rpp->in_use <= rpp->capacity);
@@ -520,7 +520,11 @@ int64_t cmi_pool_acquire_inner(struct cmb_resourcepool *rpp,
                 cmb_resourceguard_signal(&(rpp->guard));
             }
             else {
-                /* Had nothing, put back all. */
+                /*
+                 * Had nothing, put back all. (Or it had some, but lost it to a
+                 * preemption while waiting here, and the preemption notice was
+                 * overtaken by this signal. Then there is nothing to put back.)
+                 */
                 const uint64_t holds_now = cmb_resourcepool_held_by_process(rpp, caller);
                 rpp->in_use -= holds_now;
                 cmb_assert_debug(rpp->in_use <= rpp->capacity);
